@@ -329,11 +329,23 @@ def pw_body(ctx, S, pspec, mlist, twice):
                         "verify_password(q, hash_password(p)) = %r for p=%s q=%s (%s), hash %r" % (
                             val, pw_show(p), pw_show(q), m, h))
     if twice:
-        h2 = lib_hash(S, p)
+        # "a fresh salt" must not depend on reproducible process state: an application that seeds the global `random`
+        # module (replays, deterministic levels) or restores its state must still get different salts
+        import random as _random
+        st0 = _random.getstate()
+        try:
+            _random.seed(len(p) * 7919 + 17)
+            h1 = lib_hash(S, p)
+            _random.seed(len(p) * 7919 + 17)
+            h2 = lib_hash(S, p)
+        finally:
+            _random.setstate(st0)
         if h2 is not None:
             ctx.label("pw:hashed-twice")
-            if h2 == h:
+            if h2 == h or h1 == h:
                 S.violation("salt-not-fresh", "two hashes of p=%s are identical: %r" % (pw_show(p), h))
+            if h1 is not None and h1 == h2:
+                S.violation("salt-not-fresh", "two hashes of p=%s made after random.seed(<same value>) are identical (%r): the salt is drawn from reproducible state" % (pw_show(p), h1))
     if len(p) == 0:
         ctx.label("pw:empty")
     if b"\0" in p:
